@@ -439,9 +439,13 @@ static void special_tests()
 int main(int argc, char** argv)
 {
   vf::Args a{argc, argv};
-  (void)a;
+  g_sanit_mode = static_cast<int>(a.geti("--sanit", 0));
   g_worker = Backend::acquire_manual_backend_worker();
   BackendOptions bo;
+  if (g_sanit_mode == 1)
+    bo.check_printable_char = {};
+  else if (g_sanit_mode == 2)
+    bo.check_printable_char = [](char c) { return (c >= ' ' && c <= '~') || c == '\n' || c == '\t' || static_cast<unsigned char>(c) >= 0x80; };
   bo.error_notifier = [](std::string const& s) { g_notifier.push_back(s); };
   g_worker->init(bo);
   g_sink = std::make_shared<CaptureSink>();
@@ -455,7 +459,7 @@ int main(int argc, char** argv)
   // "Could not format" notifications are never expected for well-typed statements
   for (auto const& n : g_notifier)
     if (n.find("Could not format") != std::string::npos) report("format-error-notified", "?", n, "", "");
-  vf::J("stat").u("evaluations", g_eval).u("type_tuples", g_tuples).u("distinct_nontrivial", g_distinct.size()).u("mismatches_total", g_viol).emit();
+  vf::J("stat").u(g_sanit_mode == 0 ? "sanitisation_default_runs" : g_sanit_mode == 1 ? "sanitisation_disabled_runs" : "sanitisation_user_predicate_runs", 1).u("evaluations", g_eval).u("type_tuples", g_tuples).u("distinct_nontrivial", g_distinct.size()).u("mismatches_total", g_viol).emit();
   vf::done();
   return 0;
 }
